@@ -562,8 +562,9 @@ def json_of(v, vm=True):
 
 
 def jtree_of_text(text):
-    """JSON tree S-expression of a JSON text as Go's json.Unmarshal into interface{} sees it:
-    every number is a float64. Numbers outside the dyadic class give None."""
+    """JSON tree S-expression of a JSON text. A number spelled as an integer which fits an int64 is exact
+    (`(jn m 0 true)`: J1, parse_json decodes with UseNumber and reads it as that int); every other number
+    is a float64 as Go's decoder sees it. Numbers outside the dyadic class give None."""
     from fractions import Fraction
 
     def num(tok):
@@ -577,11 +578,12 @@ def jtree_of_text(text):
         if d != 1:
             raise ValueError("not dyadic")
         m = fr.numerator
-        if abs(m) >= 2**53 and (abs(m) & (abs(m) - 1)) != 0 and e == 0:
-            # integers beyond 2^53 are rounded by the parser: outside the model
+        intlit = not any(c in tok for c in ".eE")
+        exact_int = intlit and -2**63 <= m < 2**63
+        if abs(m) >= 2**53 and (abs(m) & (abs(m) - 1)) != 0 and e == 0 and not exact_int:
+            # other integers beyond 2^53 are rounded by the parser: outside the model
             if float(m) != m:
                 raise ValueError("inexact")
-        intlit = not any(c in tok for c in ".eE")
         return f"(jn {m} {e} {'true' if intlit else 'false'})"
 
     def conv(x):
